@@ -228,6 +228,12 @@ func (fm *vFakeMaster) serve(c net.Conn) {
 		fm.mu.Unlock()
 		c.Close()
 	}()
+	if fm.sc.slowDial {
+		// accept and stay silent until the client gives up
+		buf := make([]byte, 1)
+		c.Read(buf)
+		return
+	}
 	// handshake v10
 	hs := []byte{10}
 	hs = append(hs, "5.7.0-fake\x00"...)
